@@ -124,6 +124,9 @@ def fold_bin(op, a, b):
     return ('bin', op, a, b)
 
 
+_PROM_CACHE = {}
+
+
 class SymEx:
     def __init__(self, body, facts=None, max_paths=20000, loop_visits=1, call_model=None, stop_at=None, arg_values=None):
         self.b = body
@@ -196,6 +199,13 @@ class SymEx:
                 return ('fnconst', c['fn'])
             if 'v' in c:
                 return ('const', c['v'], c['ty'])
+            if isinstance(c.get('promoted'), int) and not isinstance(c.get('promoted'), bool) and self.F is not None and c.get('def'):
+                key = (c['def'], c['promoted'])
+                if key not in _PROM_CACHE:
+                    _PROM_CACHE[key] = None  # recursion guard
+                    _PROM_CACHE[key] = self.F.promoted_value(c['def'], c['promoted'])
+                if _PROM_CACHE[key] is not None:
+                    return _PROM_CACHE[key]
             return ('constx', c.get('def') or c.get('s'), c['ty'])
         p = op_place(op)
         if p is None:
@@ -271,10 +281,12 @@ class SymEx:
                     return False
         return True
 
-    def run(self):
+    def run(self, start_block=0, init_env=None):
         out = []
         start = Path()
-        work = [(0, start)]
+        if init_env:
+            start.env.update(init_env)
+        work = [(start_block, start)]
         while work:
             if len(out) + len(work) > self.max_paths:
                 self.truncated = True
